@@ -1,7 +1,7 @@
 def nontrivial(c):
     """a case is non-trivial when the real transmission sent at least one request (some batch was
     dispatched) and at least three events were enqueued"""
-    enq = sum(1 for l in c["lines"] if l.startswith("op enq ") or l.startswith("op cenq "))
+    enq = sum(1 for l in c["lines"] if l.startswith(("op enq ", "op cenq ", "op advh ")))
     sent = any(l.startswith("obs ") and " a=d" in l for l in c["lines"])
     return enq >= 3 and sent
 
@@ -17,9 +17,10 @@ SPEC = dict(
          "network+server per request: 200 with full/short/long/per-event/undecodable bodies in JSON and msgpack, 4xx/5xx, 429/503 "
          "with 18 Retry-After forms incl. HTTP dates around 60 s, transport timeouts and errors, real client time-outs, closed "
          "connections), 1-4 destinations sharing host/key/dataset components, MaxBatchSize 1..16, BatchTimeout 1 ms..30 s, event "
-         "sizes from 60 B to 1.2 MB incl. 1 000 000 +- 1 and sub-batches filled to 5 000 000 +- 1 bytes, marshal failures, "
+         "sizes from 60 B to 5.3 MB incl. 1 000 000 +- 1, events that alone exceed the 5 MB request limit and sub-batches filled to 5 000 000 +- 1 bytes, marshal failures, "
          "unbuildable URLs, concurrent enqueues (2-8 goroutines released together at the batch-map lookup, on 1-3 destinations "
-         "not seen before), occasionally a dataset named '..', '.' or '' (known finding: url.JoinPath cleans it away); clock advances land on / 1 ns around ticker instants and staleness instants; non-trivial = at least "
+         "not seen before), events enqueued while a timer-flushed batch of the same destination is held in flight by the upstream "
+         "(incl. batches over 5 MB that need two requests), occasionally a dataset named '..', '.' or '' (known finding: url.JoinPath cleans it away); clock advances land on / 1 ns around ticker instants and staleness instants; non-trivial = at least "
          "three events enqueued and at least one request observed; distinct by transcript hash",
     trusted_base=["net/http client + server (in-process over net.Pipe), klauspost zstd, tinylib/msgp, vmihailenco/msgpack",
                   "clockwork.FakeClock (tickers, Now); Clock.Sleep is recorded and returns immediately",
@@ -32,6 +33,8 @@ SPEC = dict(
                  "the scripted server answers only after the transport has closed the request body (sendBatch reuses its pooled bytes.Reader as soon as Do returns; see report)",
                  "concurrent EnqueueEvent calls are modelled as the linearisation the implementation chose (reported by the harness); "
                  "enqueue_order_independent shows the choice does not matter for what is sent and counted",
+                 "every wait of the harness on the transmission is bounded by an idle watchdog (6 s without any metric call, request or "
+                 "upstream read): a send or Stop that never finishes is observed as `hang`",
                  "EnqueueEvent is not called after Stop (it would write to a nil map)"],
     manifest=dict(
         text="Lean theorems over all event streams, clock schedules and server behaviours: splitting of any size list terminates, keeps "
